@@ -5,9 +5,10 @@
    the item stream the intended lexer produces (type of the last item).  Chunk c
    holds the texts that start with the c-th character (0: the empty text); chunk
    100 holds NRand longer texts drawn with RandomElement (TLC -seed), chunk 200
-   the texts of file InFile (repository YANG texts cut at random points).       *)
+   the texts of file InFile (repository YANG texts cut at random points), chunk
+   300 modules full of distinct string concatenations.                          *)
 EXTENDS YangLexer, Json, SequencesExt, FiniteSets, TLC
-CONSTANTS Alphabet, MaxLen, Variants, NRand, RandLen, InFile
+CONSTANTS Alphabet, MaxLen, Variants, NRand, RandLen, InFile, NCatTexts, NCat
 VARIABLES chunk, done
 
 Alpha == SetToSeq(Alphabet)
@@ -43,14 +44,30 @@ Vec(t, v) == LET u == Respell(t, v)  items == LexAll(u, Intended)  e == EndAt(L0
   [text |-> u, variant |-> v, lines |-> LineLens(u), bytes |-> SumWidth(u, 1, Len(u)),
    nitems |-> Len(items), lastItem |-> IF items = << >> THEN "none" ELSE items[Len(items)].typ,
    endsIn |-> e.fn, inBlock |-> e.depth > 0]
+\* chunk 300: NCatTexts modules of NCat statements each, every argument a different concatenation of quoted strings
+\* (the parser joins the pieces while the lexer goroutine is already one token ahead).  Only the geometry is computed.
+RECURSIVE Dec(_)
+Dec(k) == IF k < 10 THEN <<48 + k>> ELSE Dec(k \div 10) \o <<48 + (k % 10)>>
+CatStmt(i, k) == S2C("  x:s ") \o <<DQ>> \o S2C("p") \o Dec(i) \o S2C(".") \o Dec(k) \o <<DQ>> \o S2C(" + ") \o <<SQ>> \o S2C("q") \o Dec(k) \o <<SQ>>
+                 \o (IF k % 3 = 0 THEN <<LF>> \o S2C("    + ") \o <<DQ>> \o S2C("r") \o Dec(k \div 3) \o <<DQ>> ELSE << >>) \o <<SEMI, LF>>
+\* text and line geometry are put together piece by piece (every piece ends with a line feed), balanced
+Piece(t) == LET ls == LineLens(t) IN [text |-> t, lines |-> SubSeq(ls, 1, Len(ls) - 1), bytes |-> SumWidth(t, 1, Len(t))]
+Join2(a, b) == [text |-> a.text \o b.text, lines |-> a.lines \o b.lines, bytes |-> a.bytes + b.bytes]
+RECURSIVE CatBody(_, _, _)
+CatBody(i, a, b) == IF a = b THEN Piece(CatStmt(i, a))
+                    ELSE LET m == (a + b) \div 2 IN Join2(CatBody(i, a, m), CatBody(i, m + 1, b))
+CatText(i) == Join2(Join2(Piece(S2C("module m {") \o <<LF>> \o S2C("  namespace \"urn:m\";") \o <<LF>> \o S2C("  prefix m;") \o <<LF>>),
+                          CatBody(i, 1, NCat)), Piece(S2C("}") \o <<LF>>))
+LightVec(p) == [text |-> p.text, variant |-> 1, lines |-> Append(p.lines, 0), bytes |-> p.bytes, nitems |-> 0, lastItem |-> "n/a", endsIn |-> "n/a", inBlock |-> FALSE]
 \* chunk 200: given texts (repository YANG cut at random points), file InFile: records [text]
 Given(u_) == ndJsonDeserialize(InFile)
 
 Cases == IF chunk = 0 THEN {Vec(<< >>, 1)}
          ELSE IF chunk = 100 THEN LET R == RandTexts(0) IN {Vec(R[k], 1) : k \in 1..NRand}
          ELSE IF chunk = 200 THEN {Vec(Given(0)[k].text, 1) : k \in 1..Len(Given(0))}
+         ELSE IF chunk = 300 THEN {LightVec(CatText(i)) : i \in 1..NCatTexts}
          ELSE {Vec(t, v) : t \in TextsFrom(Alpha[chunk]), v \in Variants}
-GInit == chunk \in (0..Len(Alpha)) \cup {100, 200} /\ done = FALSE
+GInit == chunk \in (0..Len(Alpha)) \cup {100, 200, 300} /\ done = FALSE
 GNext == /\ ~done /\ done' = TRUE /\ UNCHANGED chunk
          /\ ndJsonSerialize("vec_" \o ToString(chunk) \o ".ndjson", SetToSeq(Cases))
 =============================================================================
